@@ -58,6 +58,16 @@ def collect(chk):
             for jds in fam[:400]:
                 for rec, _w in stub.enumerate_leaves({"gen": gen, "via": "direct", "cfg": cname, "jds": jds}, max_leaves=40):
                     traces.append(_strip(rec)); chk.rng_leaves += 1
+    # (i') histories: the same generator object already produced a graph (same or another sequence) before the judged call
+    for cname in stub.MC_MIRROR:
+        fam = stub.consistent_family(cname, 3, 2, 4)
+        gen = "motifs" if stub.CONFIGS[cname]["custom"] else "fast"
+        for jds in fam[::3 if not thorough else 1]:
+            pre = jds if rng.random() < 0.5 else rng.choice(fam)
+            for g in ([gen] if gen == "motifs" else [gen, "network"]):
+                for rec, _w in stub.enumerate_leaves({"gen": g, "via": rng.choice(["direct", "main"]), "cfg": cname, "jds": jds,
+                                                      "pre_jds": pre, "pre_seed": rng.randrange(1 << 30)}, max_leaves=6):
+                    traces.append(_strip(rec)); chk.rng_leaves += 1
     # (ii) larger sequences under the seeded oracle, all six construction paths
     n_seeded = 3000 if thorough else 400
     for i in range(n_seeded):
@@ -93,6 +103,7 @@ def run(chk, prop=None):
     prop = prop or PROPERTY
     req = ["Shuffle", "Partition", "Emit"]
     chk.mc("MC_StubMatching", "MC_StubMatching.cfg", required=req)
+    chk.mc("MC_StubMatching", "MC_StubMatching_again.cfg", required=req + ["GenerateAgain"])   # a second graph from the same generator object
     if chk.tier == "thorough":
         chk.mc("MC_StubMatching", "MC_StubMatching_big.cfg", required=req, timeout=7200)
     if prop == "C02":
